@@ -394,8 +394,8 @@ class Module:
             i.ty = parts[0]
             bm = re.match(r'^(.+?)\* (%s)$' % _valtok, parts[1])
             if not bm:
-                # constant expression base
-                i.ops = ['?']
+                # constant expression base: keep its text, the provenance analysis extracts the globals it names
+                i.ops = [parts[1].split('* ', 1)[1] if '* ' in parts[1] and '@' in parts[1] else '?']
                 i.extra = dict(basety=parts[0], idx=parts[2:], base=parts[1])
             else:
                 i.ops = [bm.group(2)]
@@ -416,9 +416,16 @@ class Module:
         elif op == 'phi':
             mm = re.match(r'^(.+?) (\[.*)$', rest)
             i.ty = mm.group(1)
-            inc = re.findall(r'\[ (%s|[^,\]]+), %%([\w.$-]+) \]' % _valtok, mm.group(2))
-            i.extra = dict(incoming=[(v.strip(), b) for v, b in inc])
-            i.ops = [v.strip() for v, b in inc]
+            inc = []
+            for part in split_top(mm.group(2)):
+                part = part.strip()
+                if part.startswith('[') and part.endswith(']'):
+                    body = part[1:-1].strip()
+                    k = body.rfind(', %')
+                    if k > 0:
+                        inc.append((body[:k].strip(), body[k + 3:].strip()))
+            i.extra = dict(incoming=inc)
+            i.ops = [v for v, b in inc]
         elif op == 'select':
             parts = split_top(rest)
             vals = []
